@@ -6,5 +6,7 @@ R4 == {1, 2, 3, 4}
 CO3 == [r \in R3 |-> IF r = 3 THEN 2 ELSE 1]
 CO4 == [r \in R4 |-> IF r = 4 THEN 2 ELSE 1]
 \* the context does not expire: progress must come from draining
-NoExpiry == ~expired
+K1 == {1}
+K2 == {1, 2}         \* two calls of Shutdown, overlapping or one after the other in every order the model allows
+NoExpiry == \A k \in Calls : ~expired[k]
 ====
